@@ -26,7 +26,7 @@ import gen_design
 import ir
 import layout_real
 from common import Violation
-from props.c14 import nest_complex
+from props.c14 import nest_complex, loops_forever, time_limit, RealCodeTimeout
 
 TITLE = "block-level vs combinator-level constraint scope"
 LEVEL = "proof"
@@ -91,9 +91,39 @@ def e2e_programs(quick):
     return out
 
 
+def hand_programs():
+    """Minimised programs of the findings of this check (beyond gen_design.corpus())."""
+    o = F(0, "o", ["a0", "b0"])
+    i2 = F(1, "i", ["a1", "b1"])
+    i3 = F(1, "i", ["a1", "b1", "c1"])
+    # a window factor on the outer factor, start 2, not crossed: under POST_PREAMBLE the outer block's geometry has
+    # preamble == trials, the window step is 0 and compiling the Nest never terminates
+    d_out = {"id": 2, "name": "d2", "kind": "derived",
+             "window": {"type": "window", "deps": [0], "width": 3, "stride": 2, "start": 2},
+             "levels": [{"name": "L2_0", "table": [[["a0", "a0", "a0"]]], "weight": 1}, {"name": "L2_1", "else": True, "weight": 1}]}
+    nonterm = {"factors": [o, i2, d_out], "constraints": [{"id": 0, "kind": "Pin", "index": -4, "level": [0, "a0"]}],
+               "blocks": [{"id": 0, "kind": "MultiCrossBlock", "design": [0, 2], "crossings": [[0]], "constraints": [0], "rcc": True,
+                           "alignment": "post preamble"},
+                          {"id": 1, "kind": "MultiCrossBlock", "design": [1], "crossings": [[1]], "constraints": [], "rcc": True,
+                           "alignment": "post preamble"},
+                          {"id": 2, "kind": "Nest", "outer": 0, "inner": 1, "constraints": [], "alignment": "post preamble"}], "main": 2}
+    # a window factor on the inner factor, start 2, not crossed, with a block-level constraint: under POST_PREAMBLE the
+    # windows start at preamble_size() but still end at the block's own trial count
+    d_in = {"id": 2, "name": "d2", "kind": "derived",
+            "window": {"type": "window", "deps": [1], "width": 2, "stride": 2, "start": 2},
+            "levels": [{"name": "L2_0", "table": [[["a1", "a1"]], [["b1", "b1"]], [["c1", "c1"]]], "weight": 1},
+                       {"name": "L2_1", "else": True, "weight": 1}]}
+    post = {"factors": [o, i3, d_in], "constraints": [{"id": 0, "kind": "ExactlyK", "k": 1, "level": [2, "L2_0"]}],
+            "blocks": [{"id": 0, "kind": "CrossBlock", "design": [0], "crossing": [0], "constraints": [], "rcc": True},
+                       {"id": 1, "kind": "CrossBlock", "design": [1, 2], "crossing": [1], "constraints": [0], "rcc": True},
+                       {"id": 2, "kind": "Nest", "outer": 0, "inner": 1, "constraints": [], "alignment": "post preamble"}], "main": 2}
+    return [("nest-post-preamble-step-0", nonterm), ("nest-post-preamble-window", post)]
+
+
 def gen_programs(ctx, n):
     rng = ctx.rng
     out = [(tag, p) for tag, p in gen_design.corpus() if any(b["kind"] in ("Repeat", "Merge", "Nest") for b in p["blocks"])]
+    out += hand_programs()
     shapes = ["repeat", "merge", "nest", "repeat", "merge", "multi", "repeat", "cross"]
     i = 0
     while len(out) < n:
@@ -224,9 +254,12 @@ def search_windows(program, block):
                         "window [%d, %d) runs past the end of the sequence (documented windows: %r)"
                         % (d[0], d[1], d[2], r[4], T, over[-1][0], over[-1][1], d[4]))
             else:
-                sig = "ranges:differ"
-                what = ("%s on (%s, %s): the real block iterates over trial ranges %r, the documented scope is %r (%d trials)"
-                        % (d[0], d[1], d[2], r[4], d[4], T))
+                from sweetpea._internal.cross_block import AlignmentMode
+                post = block.alignment == AlignmentMode.POST_PREAMBLE
+                sig = "ranges:post-preamble" if post else "ranges:differ"
+                what = ("%s on (%s, %s): the real block iterates over trial ranges %r, the documented scope is %r (%d trials)%s"
+                        % (d[0], d[1], d[2], r[4], d[4], T,
+                           "; alignment POST_PREAMBLE: preamble_size() = %d" % block.preamble_size() if post else ""))
             return (sig, what, {"constraint": list(d[:4]), "real_ranges": r[4], "documented_windows": d[4], "trials": T})
     return None
 
@@ -350,7 +383,7 @@ def run(ctx, res):
     lines = []
     expect = []
     stats = {"rejected": 0, "built": 0, "geometries": 0, "multi-window": 0, "windows-compared": 0, "windows-unsupported": 0,
-             "windows-other": 0, "post-preamble": 0, "e2e-programs": 0, "e2e-partial": 0}
+             "windows-other": 0, "post-preamble": 0, "e2e-programs": 0, "e2e-partial": 0, "nonterminating": 0}
     shapes = {}
     found = []
     for tag, p in progs:
@@ -365,8 +398,23 @@ def run(ctx, res):
         stats["built"] += 1
         from sweetpea._internal.cross_block import AlignmentMode
         stats["post-preamble"] += (block.alignment == AlignmentMode.POST_PREAMBLE)
+        bad_g = [g for g in layout_real.geoms_of(block) if loops_forever(block, g)]
+        if bad_g:
+            g = bad_g[0]
+            stats["nonterminating"] += 1
+            found.append(("ranges:nontermination",
+                          "a constraint of this accepted design carries the block geometry (trials=%d, preamble=%d): the window step is "
+                          "%d, so map_block_trial_ranges (and with it build_backend_request / synthesize_trials) loops forever, "
+                          "allocating memory" % (g.num_trials, g.preamble_size, g.num_trials - g.preamble_size),
+                          {"geometry": [g.num_trials, g.preamble_size], "trials": block.trials_per_sample()}, p, True))
+            continue
         try:
-            obs = observations(ctx, block)
+            with time_limit(30):
+                obs = observations(ctx, block)
+        except RealCodeTimeout:
+            found.append(("ranges:real-code-timeout", "the real block does not return its trial ranges / variable lists within 30 s",
+                          {}, p, True))
+            continue
         except Exception as e:  # noqa
             found.append(("harness", "harness error: %s %s" % (type(e).__name__, str(e)[:200]), {}, p, False))
             continue
@@ -447,6 +495,10 @@ def replay(ctx, data):
     built = ir.build(p)
     block = ir.main_block(built, p)
     if block is None:
+        return False
+    if sig == "ranges:nontermination":
+        return any(loops_forever(block, g) for g in layout_real.geoms_of(block))
+    if any(loops_forever(block, g) for g in layout_real.geoms_of(block)):
         return False
     w = search_windows(p, block)
     return isinstance(w, tuple) and w[0] == sig
